@@ -557,7 +557,9 @@ impl AutosarModel {
             locked_model.files.swap_remove(pos);
             if locked_model.files.is_empty() {
                 // no other files remain in the model, so it reverts to being empty
-                locked_model.root_element.0.write().content.clear();
+                // the sub elements are no longer part of the model: handles to them must become invalid,
+                // just like they do when any other element is removed
+                locked_model.root_element.0.write().remove_all_content();
                 locked_model.root_element.set_file_membership(HashSet::new());
                 locked_model.identifiables.clear();
                 locked_model.reference_origins.clear();
